@@ -286,7 +286,8 @@ fn run_with_fault(script: &[J], f: Fault, base_state: &J) -> (Vec<String>, Resul
     // what counts is what the medium holds durably: the bytes at its last flush() (a save that reports success has flushed it)
     let verdict = check_bytes(&sess, base_state, script.last().map(|e| e["op"] == "Flush").unwrap_or(false)).map_err(|e| e.1);
     // a full trace of this run (re-executed with state logging) for TLC, when the fault fired but nothing reported it
-    if fired > 0 {
+    // (a run whose bytes are already known to be wrong is reported as such; its steps are not judged a second time)
+    if fired > 0 && verdict.is_ok() {
         tr = traced_rerun(script, f);
     }
     (res, verdict, done, fired, tr)
